@@ -559,6 +559,17 @@ def _verbatim(ctx, kids):
     ctx.close()
 
 
+@reg('verbatimtrail', cls='verbatim', par=True)
+def _verbatimtrail(ctx, kids):
+    ctx.open('verbatim', WS)
+    ctx.w('\\begin{verbatim}  \t\n')
+    ctx.word()
+    ctx.w(' \n  ')
+    ctx.word()
+    ctx.w('\n\\end{verbatim}')
+    ctx.close()
+
+
 @reg('verbatimglued', cls='verbatim', par=True)
 def _verbatimglued(ctx, kids):
     ctx.open('verbatim', WS)
@@ -568,33 +579,41 @@ def _verbatimglued(ctx, kids):
     ctx.close()
 
 
-def user_macro(name, nargs, definer, body):
-    """body: list of ('g',) generated word | ('a', k) argument | ('t', text) literal generated text"""
-    @reg(name, slots=nargs, cls='user')
+def user_macro(name, nargs, definer, body, default=None):
+    """body: list of ('g', i) i-th generated word | ('a', k) argument | ('t', text) literal generated text.
+    The macro is defined where it is first used in the document and re-used afterwards
+    (repeated calls of the same macro).  default: text of the default of an optional first
+    parameter, which the uses always omit."""
+    ng = 1 + max([p[1] for p in body if p[0] == 'g'], default=-1)
+    mac = '\\m' + name.replace('_', '').replace('um', 'U')
+
+    @reg(name, slots=nargs - (1 if default is not None else 0), cls='user')
     def f(ctx, kids):
-        mac = '\\m' + chr(65 + ctx.umac % 26) + chr(97 + ctx.umac // 26)
-        ctx.umac += 1
-        gw = {}
-        btxt = ''
-        for p in body:
-            if p[0] == 'g':
-                gw[id(p)] = ctx.gword()
-                btxt += gw[id(p)]
-            elif p[0] == 'a':
-                btxt += '#%d' % (p[1] + 1)
+        if not hasattr(ctx, 'umacs'):
+            ctx.umacs = {}
+        if name not in ctx.umacs:
+            gw = [ctx.gword() for _ in range(ng)]
+            dflt = ctx.gword() if default is not None else None
+            ctx.umacs[name] = (gw, dflt)
+            btxt = ''
+            for p in body:
+                btxt += gw[p[1]] if p[0] == 'g' else '#%d' % (p[1] + 1) if p[0] == 'a' else p[1]
+            if definer == 'def':
+                ctx.w('\\def' + mac + ''.join('#%d' % (k + 1) for k in range(nargs)) + '{' + btxt + '}')
             else:
-                btxt += p[1]
-        if definer == 'def':
-            ctx.w('\\def' + mac + ''.join('#%d' % (k + 1) for k in range(nargs)) + '{' + btxt + '}')
-        else:
-            ctx.w('\\' + definer + '{' + mac + '}' + ('[%d]' % nargs if nargs else '') + '{' + btxt + '}')
-        ctx.gap()
+                ctx.w('\\' + definer + '{' + mac + '}' + ('[%d]' % nargs if nargs else '')
+                      + ('[%s]' % dflt if dflt else '') + '{' + btxt + '}')
+            ctx.gap()
+        gw, dflt = ctx.umacs[name]
         n = ctx.open(name, WS)     # body text may contain blanks
         ctx.w(mac)
         # arguments are rendered once into private flows, then placed as the body says
         argflows = []
         argdet = []
-        for k in range(nargs):
+        if default is not None:
+            argflows.append([['G', dflt, n]])
+            argdet.append([])
+        for k in range(len(kids)):
             ctx.w('{')
             fl = []
             d0 = len(ctx.detached)
@@ -606,34 +625,29 @@ def user_macro(name, nargs, definer, body):
             # detached flows inside an argument appear once per use of it
             argdet.append(ctx.detached[d0:])
             del ctx.detached[d0:]
-        if not nargs:
+        if not kids:
             ctx.w('{}')
-        used = {}
         for p in body:
             if p[0] == 'g':
-                ctx.gen(gw[id(p)], n)
+                ctx.gen(gw[p[1]], n)
             elif p[0] == 't':
                 if p[1].strip():
                     ctx.gen(p[1].strip(), n)
             else:
-                used[p[1]] = used.get(p[1], 0) + 1
-                for s in argflows[p[1]]:
-                    ctx.seg(s)
+                for sg in argflows[p[1]]:
+                    ctx.seg(sg)
                 ctx.detached += argdet[p[1]]
-        ctx.facts.setdefault('arg_mult', {})
-        for k, fl in enumerate(argflows):
-            for s in fl:
-                if s[0] == 'C' and WORD_RE.fullmatch(s[1]):
-                    ctx.facts['arg_mult'][s[1]] = used.get(k, 0)
         ctx.close()
 
 
-user_macro('um_wrap', 1, 'newcommand', [('g',), ('t', ' '), ('a', 0), ('t', ' '), ('g',)])
+user_macro('um_wrap', 1, 'newcommand', [('g', 0), ('t', ' '), ('a', 0), ('t', ' '), ('g', 1)])
 user_macro('um_twice', 1, 'newcommand', [('a', 0), ('t', '|'), ('a', 0)])
 user_macro('um_swap', 2, 'newcommand', [('a', 1), ('t', '/'), ('a', 0)])
-user_macro('um_const', 0, 'newcommand', [('g',)])
+user_macro('um_const', 0, 'newcommand', [('g', 0)])
 user_macro('um_def', 2, 'def', [('t', '<'), ('a', 0), ('t', '>'), ('a', 1)])
 user_macro('um_drop', 2, 'renewcommand', [('a', 0)])
+user_macro('um_opt', 2, 'newcommand', [('a', 0), ('t', ':'), ('a', 1), ('g', 0)], default=True)
+user_macro('um_optonly', 1, 'newcommand', [('t', '('), ('a', 0), ('t', ')')], default=True)
 
 
 def preamble_text(features, sedname='ymc.sed'):
@@ -690,7 +704,7 @@ CORE = ['group', 'unk1', 'unk2', 'textbf', 'framebox', 'href', 'LTalter', 'cente
         'footnote', 'captionopt', 'footcite',
         'emdash', 'quotes', 'tie', 'pct', 'dbslash', 'acute',
         'enumerate', 'itemlab', 'proofopt', 'theoremopt', 'inline', 'display', 'mathtext',
-        'verb', 'verbatim', 'um_wrap', 'um_twice', 'um_def', 'gls', 'cref']
+        'verb', 'verbatim', 'um_wrap', 'um_twice', 'um_def', 'um_opt', 'gls', 'cref']
 
 
 # ---------------------------------------------------------------- enumeration
@@ -754,20 +768,29 @@ class Rendered:
     pass
 
 
-def render(forest, sep=' ', lang='en', sedname='ymc.sed'):
-    """raises Invalid for trees outside the generator's rules"""
+def render(forest, sep=' ', lang='en', sedname='ymc.sed', frame='full'):
+    """raises Invalid for trees outside the generator's rules.
+    frame: 'full' = word before, between and after the constructs, final newline;
+    'nolead' = the document starts with the first construct; 'notrail' = it ends
+    with the last construct (no final newline); 'bare' = both"""
     ctx = Ctx(sep, lang)
     feats = features_of(forest)
     ctx.w(preamble_text(feats, sedname))
     ctx.body_start = ctx.pos()
-    ctx.word()
-    for t in forest:
-        io = META[t[0]].get('inline_only', False)
-        ctx.gap(io)
-        emit(ctx, t)
-        ctx.gap(io)
+    lead = frame in ('full', 'notrail')
+    trail = frame in ('full', 'nolead')
+    if lead:
         ctx.word()
-    ctx.w('\n')
+    for k, t in enumerate(forest):
+        io = META[t[0]].get('inline_only', False)
+        if lead or k:
+            ctx.gap(io)
+        emit(ctx, t)
+        if trail or k < len(forest) - 1:
+            ctx.gap(io)
+            ctx.word()
+    if trail:
+        ctx.w('\n')
     r = Rendered()
     r.src = ctx.src()
     r.flows = ctx.flows()
